@@ -4,11 +4,56 @@ import json, os, sys
 ROOT = os.path.dirname(os.path.dirname(os.path.abspath(__file__)))
 sys.path.insert(0, os.path.join(ROOT, 'lib'))
 
+RM = 'runtime monitoring: '
 CHECKS = {
  'C01': dict(level='exploration', design='DESIGN.md §6 C01',
-   technique='runtime monitoring: differential execution of generated parsers against a reference LR(1)/Earley oracle over recorded results',
-   text='Real parsers generated from hundreds (quick) to thousands (thorough) of grammars are executed on bounded-exhaustive and random inputs; each accept/reject is judged by an independent canonical-LR(1) reference (itself validated by an Earley recogniser) and the dumped table is matched state by state with the reference table. Held on the executions observed, not for all grammars.',
-   note='trusts lib/vf/ref_lr1.py (textbook construction) and the two installed compilers; char terms only'),
+   technique=RM + 'differential execution of generated parsers; accept/reject and dumped tables judged offline by a reference canonical-LR(1) oracle (Earley-validated)',
+   text='Real parsers generated from hundreds (quick) to thousands (thorough) of grammars are executed on bounded-exhaustive and random inputs; each accept/reject is judged by an independent canonical-LR(1) reference and the dumped table is matched state by state with the reference table. Held on the executions observed, not for all grammars.',
+   note='trusts lib/vf/ref_lr1.py (textbook construction, cross-checked with an Earley recogniser) and the installed compilers; char terms only'),
+ 'C02': dict(level='exploration', design='DESIGN.md §6 C02',
+   technique=RM + 'functor call log (unique value ids) recorded at the API boundary, checked offline against post-order evaluation of the reference derivation tree',
+   text='Every rule functor, default construction and typed-term functor logs its arguments by unique id; the log of each parse (incl. stacks deeper than 65536) must equal the bottom-up evaluation of the unique derivation tree from the reference driver.',
+   note='reference driver as C01; only grammars whose table matched the reference are judged'),
+ 'C03': dict(level='exploration', design='DESIGN.md §6 C03',
+   technique=RM + 'automaton built by the real pattern front end and dfa_builder read from memory; language equivalence with a reference DFA (Glushkov + subset construction); every difference replayed through the real matcher',
+   text='Tens of thousands (quick) to millions (thorough) of generated patterns plus a fixed corpus are built by the real code at run time and, for a sample, during constant evaluation; each automaton is compared exactly (all 256 byte values) with the reference language. Patterns that need determinisation or have nested loops are keyed to recorded findings; everything else is an obligation.',
+   note='trusts lib/vf/ref_regex.py (cross-checked against Python re); known findings D8/D8b bound what can be claimed'),
+ 'C05': dict(level='exploration', design='DESIGN.md §6 C05',
+   technique=RM + 'dumped parse tables compared cell by cell with a reference table resolved by the documented rule; logged derivations of operator chains compared with the reference and an independent operator-precedence grouping',
+   text='Random expression grammars (precedence incl. negative/equal, associativity, explicit [n], prefix/postfix/juxtaposition), dangling-else shapes and generic S/R grammars: every table cell and the grouping of long operator chains must follow the documented resolution.',
+   note='reference as C01; R/R grammars excluded (documented undefined); explicit [0] not generated'),
+ 'C08': dict(level='exploration', design='DESIGN.md §6 C08',
+   technique=RM + 'results, surviving values, error reports and verbose recovery steps of real parses compared offline with a reference driver implementing the documented recovery algorithm',
+   text='Grammars with the error symbol in many positions; inputs with errors inserted at every position; the observed pops, error shift, discarded terms, kept values and failure cases must equal the documented algorithm step by step.',
+   note='reference recovery driver in lib/vf/ref_lr1.py restates the README/C08 algorithm'),
+ 'C09': dict(level='exploration', design='DESIGN.md §6 C09',
+   technique=RM + 'complete error-stream text of every parse compared with the single expected message; bounds-monitoring buffer records how far input was examined',
+   text='For conflict-free grammars without error rules the stream must be empty on success and contain exactly the one expected message (position, byte or term name) on failure; the furthest byte examined must not lie beyond the offending term.',
+   note='reference as C01'),
+ 'C10': dict(level='exploration', design='DESIGN.md §6 C10',
+   technique=RM + 'source points seen by functors and message positions compared with line/column recomputed from byte offsets',
+   text='Whitespace-dense inputs, multi-line lexemes, newline/whitespace characters as terms, all four whitespace option sets, positions after recovery: every observed line/column must equal the documented rule applied to the offset.',
+   note='reference lexer model in lib/vf/model.py'),
+ 'C11': dict(level='exploration', design='DESIGN.md §6 C11',
+   technique=RM + 'write_diag_str text parsed back and compared with the reference LR(1) analysis, with the raw table (hook dump) and with verbose traces of real parses',
+   text='For grammars of all classes the diagnostics must list exactly the reference states/items/actions and conflict lines (kind, rule, preferred side), agree cell by cell with the raw table, and contain every action a real parse executes.',
+   note='reference as C01; known finding D12 (reduce/accept conflicts) is keyed by site'),
+ 'C13': dict(level='exploration', design='DESIGN.md §6 C13',
+   technique=RM + 'context probes (address, constness, mutation counter, copy/move counters) logged by contextual functors and compared with the reference reduction sequence',
+   text='Grammars mixing >= and >>= functors under lvalue, const lvalue, temporary and move-only contexts: the very object, with the supplied constness, must reach exactly the >>= functors in reduction order, uncopied; parse == context_parse when the context is ignored.',
+   note='reference as C01'),
+ 'C14': dict(level='exploration', design='DESIGN.md §6 C14',
+   technique=RM + 'tracked value types with a registry (construction/copy/move/destruction, unique ids); conservation and exactly-once checked after every parse; leak checker in thorough',
+   text='On success, failure and recovery paths, with copyable and move-only values: no library-made copy, no value consumed twice or handed over moved-from, every object destroyed exactly once.',
+   note='observes only what the tracked types can see (values of trivially copyable types are not tracked)'),
+ 'C16': dict(level='exploration', design='DESIGN.md §6 C16',
+   technique=RM + 'same case run under verbose on/off x {no stream, std::ostream, user stream}; results/functor logs compared; verbose text parsed into events and checked against the reference action sequence and the functor log',
+   text='Outcome must not depend on verbosity or stream type; the verbose trace must be exactly the reference action sequence (states renamed through the table isomorphism), contain the non-verbose messages unchanged and name the right pending term in every Recognized line.',
+   note='reference as C01'),
+ 'C17': dict(level='exploration', design='DESIGN.md §6 C17',
+   technique=RM + 'malformed patterns fed to the real pattern parser/builder/analyzer through a bounds-monitoring buffer; generated programs run through the constant evaluators of g++ and clang++ and constructed at run time',
+   text='Strings broken in the ways the property names must be refused by parser, builder and size analyzer without reading outside the pattern; regex_term/regex::expr with such patterns and grammars naming undeclared symbols must not be constant expressions and must throw at run time.',
+   note='must-reject classes are only those named by the property; other strings give no acceptance verdict'),
 }
 PENDING = {}
 def main():
